@@ -246,6 +246,8 @@ static void enumerate(void) {
 	static const int IDS[] = {B12_P381};
 #elif FP_PRIME == 255
 	static const int IDS[] = {CURVE_25519, TWEEDLEDUM};
+#elif FP_PRIME == 446
+	static const int IDS[] = {BN_P446, B12_P446};
 #else
 	static const int IDS[] = {0};
 #endif
@@ -264,7 +266,11 @@ static void enumerate(void) {
 			for (int a = 0; a < U.n; a++) for (int b = 0; b < U.n; b++) { if (mpz_sgn(U.v[a]) < 0 || mpz_sgn(U.v[b]) < 0) continue; if (vf_mine()) { K.op = "rnd"; K.n = 3; mpz_set_si(K.v[0], cid); mpz_set(K.v[1], U.v[a]); mpz_set(K.v[2], U.v[b]); vf_run(&K); } }
 			vf_dom_clear(&U); }
 #if FP_PRIME != 255
-		if (ep_curve_is_pairf()) for (int ent = 0; ent < 5; ent++) for (long len = 0; len <= (vf_tier ? 200 : 66); len++) for (long pat = 0; pat < 3; pat++) { if (!vf_tier && ent != 3 && (len % 3)) continue; if (vf_mine()) { K.op = "g2"; K.n = 4; mpz_set_si(K.v[0], cid); mpz_set_si(K.v[1], ent); mpz_set_si(K.v[2], len); mpz_set_si(K.v[3], pat); vf_run(&K); } }
+		int g2_usable = ep_curve_is_pairf() != 0;
+#if FP_PRIME == 446 && !defined(FP_QNRES)
+		if (cid == B12_P446) g2_usable = 0; /* its twist needs a build with FP_QNRES (finding L42, judged in C18) */
+#endif
+		if (g2_usable) for (int ent = 0; ent < 5; ent++) for (long len = 0; len <= (vf_tier ? 200 : 66); len++) for (long pat = 0; pat < 3; pat++) { if (!vf_tier && ent != 3 && (len % 3)) continue; if (vf_mine()) { K.op = "g2"; K.n = 4; mpz_set_si(K.v[0], cid); mpz_set_si(K.v[1], ent); mpz_set_si(K.v[2], len); mpz_set_si(K.v[3], pat); vf_run(&K); } }
 #endif
 		vf_bound_done(bn); }
 #if defined(WITH_EB) && FP_PRIME == 256
